@@ -84,7 +84,7 @@ func loadModule(m module, patterns []string) (*Prog, error) {
 	if len(errs) > 0 {
 		return nil, fmt.Errorf("load %s: %s", dir, strings.Join(errs, "; "))
 	}
-	prog, ssaPkgs := ssautil.Packages(pkgs, ssa.InstantiateGenerics&0|ssa.BuilderMode(0))
+	prog, ssaPkgs := ssautil.Packages(pkgs, ssa.InstantiateGenerics)
 	prog.Build()
 	p := &Prog{mod: m, pkgs: pkgs, prog: prog, ssaPkgs: ssaPkgs, byPath: map[string]*ssa.Package{}, byName: map[string]*ssa.Package{}}
 	if len(pkgs) > 0 {
